@@ -2,7 +2,8 @@
 import json
 import os
 
-from .props import PROPS, NOT_APPLICABLE, MANIFEST_TEXT
+from .props import PROPS, NOT_APPLICABLE
+from .manifest_text import TEXT as MANIFEST_TEXT
 
 VERIF = os.path.dirname(os.path.dirname(os.path.abspath(__file__)))
 
